@@ -40,6 +40,53 @@ ANY = object()
 GROWTH_WATCH = re.compile(r"max_values|term_w|term_width|get_index|display_order|usize::MAX|u64::MAX")
 
 
+OPT_FEED = re.compile(r"(option::Option|Option)(<[^>]*>)?::(map|and_then|is_some_and|is_none_or|map_or|map_or_else|filter|inspect|then|unwrap_or_else|or_else|take_if)$")
+RES_FEED = re.compile(r"(result::Result|Result)(<[^>]*>)?::(map|and_then|is_ok_and|map_or|map_or_else|inspect)$")
+ITER_FEED = re.compile(r"Iterator>?::(find|any|all|filter|map|filter_map|flat_map|position|for_each|find_map|take_while|skip_while|map_while|inspect|max_by_key|min_by_key|fold|partition|rposition)$")
+
+
+def resolved_operand(body, e, depth=0):
+    """Operand expression of a site inside a closure, written in the enclosing function's terms: captured variables
+    (`arg1.N`) become the captured expressions, the closure's own parameter becomes the payload / the element of what the
+    closure is applied to (`o.map(|k| ..)`: k = o#Some.0; `it.find(|x| ..)`: x = elem(it)).  The provenance class (and with it
+    the audit key) of a panic site is then the same whether the code sits in a closure or inline in the function."""
+    if e is None or body.kind != "Closure" or body.parent is None or depth > 3:
+        return e
+    par = body.parent
+    caps = None
+    for i, j, st in par.stmts():
+        if st["k"] == "assign" and st["rv"]["k"] == "agg" and st["rv"].get("ak") == "closure" and st["rv"].get("def") == body.defi:
+            caps = [expr(par, o) for o in st["rv"]["ops"]]
+            break
+    feed = closure_feed(None, body)
+    sub = {}
+    if caps is not None:
+        for n, ce in enumerate(caps):
+            sub["arg1.%d" % n] = ce
+    if feed:
+        recv = feed[2]
+        c = feed[1]
+        pay = None
+        if c.is_(OPT_FEED.pattern):
+            pay = recv + "#Some.0"
+        elif c.is_(RES_FEED.pattern):
+            pay = recv + "#Ok.0"
+        elif c.is_(ITER_FEED.pattern):
+            # the same spelling a `for` loop over the receiver gives its loop variable
+            pay = "next(into_iter(%s))#Some.0" % recv
+        if pay and body.argc >= 2:
+            nm = body.local_name(2)
+            sub[nm or "arg2"] = pay
+            sub["arg2"] = pay
+    if not sub:
+        return e
+    keys = sorted(sub, key=len, reverse=True)
+    rx = re.compile(r"(?<![\w.#])(" + "|".join(re.escape(k) for k in keys) + r")(?![\w(])")
+    # `arg1.0` must win over a parameter called `arg1`; the lookbehind keeps field names (`.index`) untouched
+    out = rx.sub(lambda m: sub[m.group(1)], e)
+    return resolved_operand(par, out, depth + 1)
+
+
 class Site:
     __slots__ = ("body", "bb", "kind", "what", "operand", "prov", "sp", "macro", "discharge", "detail")
 
@@ -53,7 +100,7 @@ class Site:
         self.macro = macro
         self.discharge = None
         self.detail = ""
-        self.prov = prov_class(operand)
+        self.prov = prov_class(resolved_operand(body, operand))
 
     def module(self):
         """File-level module of the owning body (qname without the item/impl tail)."""
@@ -297,6 +344,20 @@ def discharge_local(site, vres=None):
                 site.discharge = "G"
                 site.detail = "dominated by %s <= %s" % (start, ln)
                 return "G"
+            # for x in 0..=K / 0..K with K = len(S).checked_sub(n) (so K <= len(S)), slicing S's bytes from x:
+            # x <= K <= len(S) = len(as_encoded_bytes(S))  [std: OsStr::len / str::len are the byte lengths of that encoding]
+            mres = re.fullmatch(r"(.*?)\[RangeFrom::RangeFrom\((.*)\)\]", resolved_operand(body, site.operand) or "")
+            if mres:
+                base, start = mres.group(1), mres.group(2)
+            mr = re.fullmatch(r"next\(into_iter\(new\(0,(.*)\)\)\)#Some\.0|next\(into_iter\(Range::Range\(0,(.*)\)\)\)#Some\.0", start)
+            mb = re.fullmatch(r"(?:as_encoded_bytes|as_bytes)\((\w+)\)", base)
+            if mr and mb:
+                K = mr.group(1) or mr.group(2)
+                mk = re.fullmatch(r"branch\(checked_sub\(len\((\w+)\),.*\)\)#Continue\.0|(?:unwrap|expect)\(checked_sub\(len\((\w+)\),.*\).*\)|saturating_sub\(len\((\w+)\),.*\)", K)
+                if mk and (mk.group(1) or mk.group(2) or mk.group(3)) == mb.group(1):
+                    site.discharge = "G"
+                    site.detail = "start ranges over 0..=%s, which is at most len(%s)" % (K[:60], mb.group(1))
+                    return "G"
         m = re.fullmatch(r"(.*?)\[([^\[\]]*)\]", site.operand or "")
         if m and re.search(r"index<(std::vec::Vec|\[T\]|\[\w+\])>\[usize\]", site.what):
             base, idx = m.group(1), m.group(2)
